@@ -176,6 +176,7 @@ func (u *controlUnit) handleRunner(ctx *risc.Context, cycle int, runner *risc.In
 		}
 		log.Infoi(ctx, "CU", runner.Runner.InstructionType(), runner.Pc, "forward runner on %s (source %d)", register, previousRunner.Pc/4)
 		u.forwarding++
+		ctx.VerifEvent(risc.VerifKindDispatch, runner.SequenceID, 1, previousRunner.SequenceID)
 		return true, true
 	}
 
@@ -184,6 +185,7 @@ func (u *controlUnit) handleRunner(ctx *risc.Context, cycle int, runner *risc.In
 		if !pushed {
 			return false, true
 		}
+		ctx.VerifEvent(risc.VerifKindDispatch, runner.SequenceID, 2, 0)
 		log.Infoi(ctx, "CU", runner.Runner.InstructionType(), runner.Pc, "renaming")
 		return true, false
 	}
@@ -274,6 +276,7 @@ func (u *controlUnit) pushRunner(ctx *risc.Context, cycle int, runner *risc.Inst
 
 	runner.ExecutionUnitID = u.getExecutionUnitIDPreference(runner)
 	u.outBus.Add(runner, cycle)
+	ctx.VerifEvent(risc.VerifKindDispatch, runner.SequenceID, 0, 0)
 	ctx.AddPendingRegisters(runner.Runner)
 	log.Infoi(ctx, "CU", runner.Runner.InstructionType(), runner.Pc, "pushing runner")
 	return true
